@@ -1326,6 +1326,7 @@ func bType(intp *Interpreter) error {
 	default:
 		return intp.e(eTypecheck, "type: not implemented for %T", obj)
 	}
+	intp.Stack = intp.Stack[:len(intp.Stack)-1]
 	intp.Stack = append(intp.Stack, tp)
 	return nil
 }
